@@ -151,7 +151,7 @@ func harnessOverlay(harnessDir string) (map[string][]byte, error) {
 		if err != nil {
 			return err
 		}
-		ov[filepath.Join("/repo", rel)] = b
+		ov[filepath.Join(repoDir, rel)] = b
 		return nil
 	})
 	return ov, err
@@ -166,7 +166,7 @@ func LoadEngine(patterns []string, harnessDir string) (*Engine, error) {
 	// the engine never sees the native body of verifsym: drop files tagged as native-only? (single body is fine)
 	cfg := &packages.Config{
 		Mode:    packages.LoadAllSyntax,
-		Dir:     "/repo",
+		Dir:     repoDir,
 		Overlay: ov,
 		Env:     append(os.Environ(), "GOFLAGS=-mod=mod", "GOPROXY=off", "CGO_ENABLED=1"),
 	}
@@ -523,6 +523,7 @@ func (e *Engine) runPath(hr *HarnessRun, sol *Solver, it workItem, concrete map[
 		p.concreteChoices = concrete
 	}
 	sol.Reset()
+	sol.context = func() string { return fmt.Sprint(p.choices) + p.where() }
 	defer func() {
 		atomic.AddInt64(&hr.steps, p.steps)
 		hr.mu.Lock()
